@@ -124,6 +124,8 @@ def check_case(case: dict):
             dev.default_hs_action = ("genuine", {"mutate": m2})
         elif kind == "silence":
             dev.default_hs_action = ("drop",)
+        elif kind == "nobudget":
+            pass        # (the call below asks for zero attempts: no request can go out, so no reply can prove anything)
         elif kind == "raw":
             dev.default_hs_action = ("raw", bytes.fromhex(mut[1]))
         else:
@@ -132,11 +134,21 @@ def check_case(case: dict):
         targ = token.hex() if case.get("token_form") == "hex" else token
         karg = key.hex() if case.get("key_form") == "hex" else key
         try:
-            await ac.authenticate(targ, karg)
+            if kind == "nobudget" and prior in ("fresh", "late"):
+                await ac._lan.authenticate(targ, karg, retries=mut[1])
+            elif kind == "nobudget":
+                raise AuthenticationError("(not applicable in this prior state: an already authenticated session needs no request)")
+            else:
+                await ac.authenticate(targ, karg)
             out["auth"] = "ok"
         except AuthenticationError as e:
             out["auth"] = "autherr"
             out["auth_msg"] = repr(e)
+        except (AssertionError, ValueError) as e:
+            # (a zero / negative attempt budget is refused one way or another; what matters is that nothing gets authenticated)
+            out["auth"] = "autherr" if kind == "nobudget" else "other"
+            out["auth_msg"] = repr(e)
+            out["auth_exc"] = e
         except BaseException as e:
             out["auth"] = "other"
             out["auth_exc"] = e
@@ -198,7 +210,7 @@ def check_case(case: dict):
             return ("forged/sent-data", f"something other than a handshake request was sent during a failed authentication: {out['during']}")
         if tok != token:
             return ("forged/wrong-token", "handshake request carried a token other than the supplied one")
-    if not out["during"]:
+    if not out["during"] and mut[0] != "nobudget":
         return ("forged/no-request", "no handshake request reached the device")
     if out["after_creds"] != out["before_creds"]:
         return ("forged/creds-replaced", f"stored token/key changed from {out['before_creds']} to {out['after_creds']} by a failed authentication")
@@ -278,7 +290,7 @@ def run(ctx) -> None:
                 "prior": ["fresh", "authed"][s % 2]}
         others = [p_ for p_ in ("fresh", "authed", "late", "expired") if p_ != base["prior"]]
         muts = [["flip", b] for b in range(512)] + [["len", k] for k in (0, 1, 32, 63, 65, 96, 128)] + \
-               [["ptype", t] for t in range(16) if t != 1] + [["lenpad", k, k] for k in range(1, 16)] + [["lenpad", 0, 5], ["lenpad", 3, 7], ["lenpad", 16, 0]] + [["error"], ["wrongkey", "random"], ["othernonce"], ["silence"], ["genuine"]] + \
+               [["ptype", t] for t in range(16) if t != 1] + [["lenpad", k, k] for k in range(1, 16)] + [["lenpad", 0, 5], ["lenpad", 3, 7], ["lenpad", 16, 0]] + [["error"], ["wrongkey", "random"], ["othernonce"], ["silence"], ["genuine"], ["nobudget", 0], ["nobudget", -1]] + \
                [["wrongkey", b] for b in range(0, 256, 16 if ctx.quick else 1)]
         for m in muts:
             n += 1
@@ -298,7 +310,7 @@ def run(ctx) -> None:
                     st.tuples(st.just("len"), st.integers(0, 200).map(lambda n: n if n != 64 else 128)).map(list),
                     st.tuples(st.just("lenpad"), st.integers(1, 40), st.integers(0, 15)).map(list), st.tuples(st.just("ptype"), st.sampled_from([0, 2, 3, 4, 5, 6, 7, 8, 9, 10, 11, 12, 13, 14, 15])).map(list),
                     st.just(["error"]), st.just(["wrongkey", "random"]), st.tuples(st.just("wrongkey"), st.integers(0, 255)).map(list),
-                    st.just(["othernonce"]), st.just(["silence"]),
+                    st.just(["othernonce"]), st.just(["silence"]), st.just(["nobudget", 0]),
                     st.tuples(st.just("raw"), hexb(st.one_of(st.binary(max_size=90), st.binary(max_size=80).map(lambda b: b"\x83\x70" + bytes([0, len(b) - 2 if len(b) >= 2 else 0, 0x20]) + b)))).map(list))
     cases = st.fixed_dictionaries({
         "token": hexb(gens.tokens64()), "key": hexb(gens.keys32()), "nonce": hexb(st.binary(min_size=1, max_size=8)),
